@@ -86,17 +86,40 @@ static uint32_t sum32_cb(const unsigned char *d, size_t n, uint32_t init)
     for (size_t i = 0; i < n; i++) init = (init * 3u + d[i]) % 16777213u;
     return init;
 }
-static void open_instance(void)
+/* The configuration calls commute: whatever their order, and whether or not another checksum was configured first, the
+ * instance ends up with the same layout.  The order is varied deterministically from one opening to the next. */
+static unsigned opens;
+static void cfg_sum(int final)
 {
-    memset(&st, 0xA5, sizeof st);        /* initialisation must not rely on a zeroed instance */
-    persistent_init(&st, (size_t)C.n, m_read, m_write);
-    if (C.alg == 2) persistent_sum16(&st, crc_cb, 7439);
-    else if (C.alg == 3) persistent_sum32(&st, sum32_cb, 7);
+    if (final) {
+        if (C.alg == 2) persistent_sum16(&st, crc_cb, 7439);
+        else if (C.alg == 3) persistent_sum32(&st, sum32_cb, 7);
+    } else {
+        if (C.alg == 2) persistent_sum32(&st, sum32_cb, 1);      /* a different width first */
+        else if (C.alg == 3) persistent_sum16(&st, crc_cb, 1);
+    }
+}
+static void cfg_place(void)
+{
     if ((uint32_t)C.place + MB != 0) persistent_place(&st, (uint32_t)C.place + MB);   /* address 0 is the default after init */
+}
+static void cfg_buffer(void)
+{
     if (aux) { xfree(aux); aux = NULL; }
     if (C.aux != 9999) {
         aux = C.aux ? xblock((size_t)C.aux) : xblock0();
         persistent_buffer(&st, aux, (size_t)C.aux);
+    }
+}
+static void open_instance(void)
+{
+    memset(&st, 0xA5, sizeof st);        /* initialisation must not rely on a zeroed instance */
+    persistent_init(&st, (size_t)C.n, m_read, m_write);
+    switch ((opens++ + (unsigned)C.n + (unsigned)C.alg) % 4) {
+    case 0: cfg_sum(1); cfg_place(); cfg_buffer(); break;
+    case 1: cfg_place(); cfg_sum(1); cfg_buffer(); break;
+    case 2: cfg_sum(0); cfg_sum(1); cfg_place(); cfg_buffer(); break;
+    default: cfg_buffer(); cfg_place(); cfg_sum(0); cfg_sum(1); break;
     }
 }
 static void image(Ev *ev) { for (size_t i = 0; i < msize; i++) obs(ev, medium[i]); }
